@@ -62,7 +62,11 @@ def run_scenario(sc, timeout=60):
 def validate_traces(run, name, traces, pid, key_prefix, per_file=12):
     """traces: list of (scenario, events).  Several runs per file, separated by reset events; TLC (one worker, depth-first queue)
     must find linearization points that explain every result of every run."""
-    groups = [traces[i:i + per_file] for i in range(0, len(traces), per_file)]
+    # runs that re-register an operator at another precedence often are F1 instances: validate those one per file
+    def is_pin(sc):
+        return any(c.get("name") == "pin" for th in sc["threads"] for c in th)
+    plain = [t for t in traces if not is_pin(t[0])]
+    groups = [plain[i:i + per_file] for i in range(0, len(plain), per_file)] + [[t] for t in traces if is_pin(t[0])]
     files = []
     for gi, g in enumerate(groups):
         p = os.path.join(tlc.WORK, "engine-trace-%s-%d.ndjson" % (name, gi))
@@ -77,14 +81,16 @@ def validate_traces(run, name, traces, pid, key_prefix, per_file=12):
     rejected = []
     for gi, res in enumerate(results):
         run.tlc("T:TraceEngine/%s/%d" % (name, gi), res)
-        if res.violation:
+        if res.violation and res.violation != "NotDone":
             raise tlc.ToolError("TraceEngine failed: %s\n%s" % (res.violation, res.error_text[:1500]))
         prs = core.tlc_printed_records(res)
-        acc = [p for p in prs if "accepted" in p]
+        acc = [{"accepted": True}] if res.violation == "NotDone" else []      # the whole file was consumed: search stopped
         rej = [p for p in prs if "rejected_at" in p]
         if not acc and not rej:
             raise tlc.ToolError("TraceEngine gave no verdict for %s" % files[gi])
-        if rej:
+        if rej and len(groups[gi]) == 1:
+            rejected.append((groups[gi][0][0], groups[gi][0][1], rej[0]))
+        elif rej:
             # locate the run inside the file, then re-validate the remaining runs of the group one by one
             for k, (sc, evs) in enumerate(groups[gi]):
                 p1 = os.path.join(tlc.WORK, "engine-trace-%s-%d-%d.ndjson" % (name, gi, k))
@@ -92,18 +98,48 @@ def validate_traces(run, name, traces, pid, key_prefix, per_file=12):
                 r1 = tlc.run("trace/TraceEngine.tla", "trace/TraceEngine.cfg", workers=1, env={"TRACE": p1}, deque=True, xmx="2g", timeout=900)
                 run.tlc("T:TraceEngine/%s/%d.%d" % (name, gi, k), r1)
                 pr1 = core.tlc_printed_records(r1)
-                rj = [p for p in pr1 if "rejected_at" in p]
+                rj = [p for p in pr1 if "rejected_at" in p] if r1.violation != "NotDone" else []
                 if rj:
                     rejected.append((sc, evs, rj[0]))
     run.traces += len(traces)
     run.evaluations += len(traces)
-    for sc, evs, rj in rejected:
+    # is a rejected run a behaviour of the FINE-GRAINED engine (an evaluation = several critical sections)?  Then it is an instance
+    # of the known finding F1, not a new violation.  (validated in parallel, one TLC per run)
+    def fine(k):
+        p2 = os.path.join(tlc.WORK, "engine-trace-fine-%s-%d.ndjson" % (name, k))
+        core.write_ndjson(p2, rejected[k][1])
+        return tlc.run("trace/TraceEngine.tla", "trace/TraceEngineFine.cfg", workers=1, env={"TRACE": p2}, deque=True, xmx="2g", timeout=900)
+    fines = core.parallel([(lambda k=k: fine(k)) for k in range(len(rejected))])
+    for (sc, evs, rj), r2 in zip(rejected, fines):
         ev = rj.get("event", {})
+        run.tlc("T:TraceEngineFine/%s" % name, r2)
+        if r2.violation == "NotDone":
+            run.violation("%s/nonatomic-eval/reregister-overlaps-multi-lookup" % key_prefix.split("/")[0],
+                          "a run is explained by the fine-grained engine only: an evaluation read the precedence of `pin` before and its handler after an overlapping re-registration (result %s)" % ev.get("res"),
+                          {"family": "engine", "scenario": sc, "events": evs, "rejected": rj})
+            continue
         kind = "partial-init" if ev.get("site") == "access" else ("panic" if str(ev.get("res", "")).startswith("panic") else "not-linearizable")
         run.violation("%s/%s" % (key_prefix, kind), "recorded run is not a behaviour of the atomic engine: rejected at event %s" % json.dumps(ev)[:300],
                       {"family": "engine", "scenario": sc, "events": evs, "rejected": rj})
     run.leg("T:TraceEngine/" + name, runs=len(traces), rejected=len(rejected))
     return rejected
+
+
+# an infix operator re-registered with *different precedences*: the probe program 2 * 3 pin 4 tells the handler and the grouping
+# apart (handler k returns the odd number k: (2*3) pin 4 = k at low precedence, 2 * (3 pin 4) = 2k at high precedence)
+PIN_CLASSES = {"none": ["num", False, [4], 0]}
+for _k in (1, 3, 5, 7):
+    PIN_CLASSES["p%dlo" % _k] = ["num", False, [_k], 0]
+    PIN_CLASSES["p%dhi" % _k] = ["num", False, [2 * _k], 0]
+
+
+def pin_reg(k, hi):
+    return {"op": "reg", "r": "infix", "name": "pin", "val": "p%d%s" % (k, "hi" if hi else "lo"), "prec": 130 if hi else 100, "assoc": "L", "ret": ["num", False, [k], 0]}
+
+
+PIN_EXEC = {"op": "exec", "r": "infix", "name": "pin", "text": "2 * 3 pin 4", "classes": PIN_CLASSES,
+            "parts": {"p%d%s" % (k, c): ["p%d" % k, c] for k in (1, 3, 5, 7) for c in ("lo", "hi")},
+            "compose": {"p%d" % k: {"lo": "p%dlo" % k, "hi": "p%dhi" % k} for k in (1, 3, 5, 7)}}
 
 
 def free_scenarios(seed, n, max_threads):
@@ -126,6 +162,10 @@ def free_scenarios(seed, n, max_threads):
                 else:
                     calls.append({"op": "exec", "r": r, "name": nm})
             threads.append(calls)
+        if k % 5 == 4:
+            # every fifth run: one thread keeps re-registering `pin` at alternating precedences while the others evaluate with it
+            threads = [[pin_reg(kk, (kk // 2) % 2 == 0) for kk in (1, 3, 5, 7)][: rnd.randint(2, 4)]] + [[dict(PIN_EXEC) for _ in range(rnd.randint(1, 2))] for _ in range(min(nt, 4) - 1)]
+            threads[0].append(dict(PIN_EXEC))
         out.append({"threads": threads, "mode": "free"})
     return out
 
@@ -159,5 +199,5 @@ def replay(path, seed):
         return 1
     r1 = tlc.run("trace/TraceEngine.tla", "trace/TraceEngine.cfg", workers=1, env={"TRACE": p1}, deque=True, xmx="2g", timeout=900)
     pr = core.tlc_printed_records(r1)
-    print(pr)
-    return 1 if any("rejected_at" in p for p in pr) else 0
+    print("accepted" if r1.violation == "NotDone" else pr)
+    return 0 if r1.violation == "NotDone" else 1
